@@ -679,6 +679,11 @@ func (c *Conn) readRecordOrCCS(expectChangeCipherSpec bool) error {
 		if len(data) == 0 || expectChangeCipherSpec {
 			return c.in.setErrorLocked(c.sendAlert(alertUnexpectedMessage))
 		}
+		// TLCP 不支持重协商：握手完成后的握手消息没有任何消费者，
+		// 若继续写入 c.hand 对端可使其无限增长且 Read 永不返回，因此拒绝。
+		if handshakeComplete {
+			return c.in.setErrorLocked(c.sendAlert(alertNoRenegotiation))
+		}
 		c.hand.Write(data)
 	}
 
